@@ -457,7 +457,26 @@ func ruleSTLLayouts(p *Prog, l *Ledger, tier string) {
 	} else {
 		l.Undecide(rule, "gsiBlock.bytes", rule+"|GSI|extract", p.Pos(gw.Pos()), "extraction-below-minimum: the GSI writer is no longer a sequence of constant-width appends")
 	}
-	if parts, ok := writerLayout(p, tw, "ttiBlock"); ok {
+	ttiParts, ttiOK := writerLayout(p, tw, "ttiBlock")
+	if !ttiOK {
+		// the block may be laid out by a method of the same type that bytes calls (once per block it emits)
+		for _, b := range tw.Blocks {
+			for _, ins := range b.Instrs {
+				c, ok := ins.(*ssa.Call)
+				if !ok || ttiOK {
+					continue
+				}
+				sc := c.Call.StaticCallee()
+				if sc == nil || fnPkg(sc) != p.LibSSA || sc.Signature.Recv() == nil || len(c.Call.Args) == 0 || c.Call.Args[0] != ssa.Value(tw.Params[0]) {
+					continue
+				}
+				if parts, ok := writerLayout(p, sc, "ttiBlock"); ok {
+					ttiParts, ttiOK = parts, true
+				}
+			}
+		}
+	}
+	if parts, ok := ttiParts, ttiOK; ok {
 		checkLayout(p, l, rule, "TTI", parts, readerLayout(tr, "ttiBlock", 0, tti), tti, 9)
 	} else {
 		l.Undecide(rule, "ttiBlock.bytes", rule+"|TTI|extract", p.Pos(tw.Pos()), "extraction-below-minimum: the TTI writer is no longer a sequence of constant-width appends")
